@@ -24,8 +24,9 @@ def domain(tier, name):
         full = [(h, b) for h in range(0, 6) for b in range(0, 6) if math.comb(h, 2) * math.comb(b, 3) <= 30]
         quick = [(4, 4), (4, 3), (2, 3), (4, 2), (1, 5), (3, 5)]
     elif kind == 'greek':
-        full = [(2, b) for b in range(0, 6)]
-        quick = [(2, 5), (2, 3), (2, 2)]
+        # Greek hold'em is dealt two hole cards; with fewer, "both hole cards plus three board cards" is not five cards: no hand
+        full = [(2, b) for b in range(0, 6)] + [(1, 3), (1, 4), (1, 5), (0, 5)]
+        quick = [(2, 5), (2, 3), (2, 2), (1, 4), (0, 5)]
     elif kind == 'badugi':
         full = [(h, 0) for h in range(0, 7)]
         quick = [(4, 0), (5, 0), (2, 0), (0, 0)]
